@@ -83,12 +83,12 @@ def keptHost (includeLast : Bool) (rows : List Row) : List Row :=
     cpu.filter (keepPred includeLast lastStart lastEnd)
   | _, _ => []
 
-/-- `gpu_kernels.merge(cpu_kernels["correlation"], on="correlation", how="inner")` then
-`concat([gpu, cpu])`. -/
+/-- Device rows whose correlation id (other than -1) is carried by a kept host row — a semi-join
+(`gpu_kernels[gpu_kernels.correlation.isin(launched)]`) — then `concat([gpu, cpu])`. -/
 def trimRank (includeLast : Bool) (rows : List Row) : List Row :=
   let kept := keptHost includeLast rows
   let gpu := rows.filter C02.devSide
-  (gpu.flatMap fun d => (kept.filter fun h => h.corr == d.corr).map fun _ => d) ++ kept
+  (gpu.filter fun d => d.corr != -1 && kept.any fun h => h.corr == d.corr) ++ kept
 
 /-- `nStepSymbols` = number of distinct symbols of the global table containing "ProfilerStep". -/
 def load (includeLast : Bool) (nStepSymbols : Nat) (ranks : List (List Row)) : List (List Row) :=
